@@ -2787,7 +2787,7 @@ def rand_grid(rng, N, uniform=False):
 class C17(Check):
     pid = "C17"
     slices = ["micro-spline-functions", "signals-are-splines", "der-of-signals", "spline-method-chains", "spline-method-constraints",
-              "signals-under-sampling-methods", "spline-vs-shooting"]
+              "signals-under-sampling-methods", "spline-vs-shooting", "chain-links-with-a-gain"]
 
     def explanation(self):
         return ("PARTIAL. model: Cox-de Boor recursion on the clamped control-grid knots, spline evaluation, derivative coefficients "
@@ -2806,6 +2806,68 @@ class C17(Check):
         self.constraints_slice()
         self.sampling_signal_slice()
         self.equivalence_slice()
+        self.gain_slice()
+
+    def gain_slice(self):
+        """an integrator chain with a gain in a link (`der(v) = g*a`, `der(x) = -u`): SplineMethod either refuses the problem or the
+        declared dynamics hold — at ANY decision vector the increments of v over the control intervals are g * a_k * dt_k"""
+        import casadi as ca
+        import numpy as np
+        try:
+            import networkx  # noqa
+        except ImportError:
+            return
+        rockit = B.import_rockit()
+        name = "chain-links-with-a-gain"
+        n = 4 if self.tier == 'quick' else 24
+        rng = self.rng
+        for it in range(n):
+            g = [2.5, -1.0, 0.5, 1.0, -2.0, 3.0][it % 6]
+            N = rng.randint(2, 5)
+            geo = rng.random() < 0.5
+            t0, T = rng.randint(-2, 3) / 2.0, rng.randint(2, 6) / 2.0
+            info = {"gain": g, "N": N, "grid": "geometric" if geo else "uniform", "t0": t0, "T": T}
+            refused = False
+            err = None
+            try:
+                with B.quiet():
+                    ocp = rockit.Ocp(t0=t0, T=T)
+                    p_ = ocp.state(); v = ocp.state(); a = ocp.control()
+                    ocp.set_der(p_, v)
+                    ocp.set_der(v, g * a if g != -1.0 else -a)
+                    ocp.add_objective(ocp.sum(a ** 2, include_last=False) + ocp.at_tf(p_ ** 2))
+                    ocp.subject_to(ocp.at_t0(p_) == 1)
+                    ocp.method(rockit.SplineMethod(N=N, grid=rockit.GeometricGrid(1.7) if geo else rockit.UniformGrid()))
+                    ocp.solver('ipopt', {'ipopt.print_level': 0, 'print_time': False, 'ipopt.max_iter': 0, 'ipopt.sb': 'yes'})
+                    try:
+                        ocp._transcribed
+                    except (AssertionError, Exception) as ex:
+                        refused = True
+                    if not refused:
+                        opti = ocp._method.opti
+                        ts, vs = ocp.sample(v, grid='control')
+                        as_ = ocp.sample(a, grid='control', )[1]
+                        F = ca.Function('F', [opti.x, opti.p], [ca.vec(ca.MX(ts)), ca.vec(ca.MX(vs)), ca.vec(ca.MX(as_))])
+                        xv = [rng.choice([-1.5, -0.5, 0.5, 1.0, 2.0]) for _ in range(opti.x.numel())]
+                        pv = np.array(opti.debug.value(opti.p, opti.initial())).flatten() if opti.p.numel() else []
+                        tt, vv, aa = [np.array(r).flatten() for r in F(xv, pv)]
+                        for k in range(N):
+                            want = g * aa[k] * (tt[k + 1] - tt[k])
+                            if abs((vv[k + 1] - vv[k]) - want) > 1e-9 * max(1.0, abs(want)):
+                                err = ("der(v) = %s*a was accepted, but over control interval %d v changes by %r while g*a*dt = %r (a = %r, dt = %r)"
+                                       % (g, k, vv[k + 1] - vv[k], want, aa[k], tt[k + 1] - tt[k]))
+                                break
+            except Exception as ex:
+                err = "a chain with gain %s raised outside the transcription: %s: %s" % (g, type(ex).__name__, str(ex)[:200])
+            self.evaluations += 1
+            self.signatures.add("gain-%d" % it)
+            self.count("chain-gain:" + ("refused" if refused else "accepted"))
+            if g == 1.0 and refused:
+                err = "a pure integrator chain was refused by SplineMethod"
+            if err:
+                self.slice_ok[name] = False
+                self.violation("SplineMethod: " + err, {"case": info}, {"kind": "chain-gain", "gain": g})
+                return
 
     # -- micro_spline --------------------------------------------------------------------------
     def micro_slice(self):
